@@ -34,6 +34,9 @@ class _Runner(object):
         self.capped = 0
         self.stopped = False
         self.feats = {}
+        # one long-lived parser object serves every line as well: the statement holds for any parser object, not
+        # only for a fresh one (a config hands the same parser to all its commands)
+        self.shared = G.new_parser()
 
     def line(self, spec, fid, fmt, A, items, feats):
         tokens = G.flat(items)
@@ -47,6 +50,11 @@ class _Runner(object):
                           sample={"format": spec, "line": tokens, "lenient": lenient} if nt and len(feats) >= 3 else None)
             for sig, what in G.problems(spec, A, out):
                 found.setdefault(sig, []).append((lenient, what))
+            out2 = G.parse_outcome(self.shared, fmt, tokens, lenient)
+            if G.outcome_key(out2) != G.outcome_key(out):
+                found.setdefault("reused-parser-differs", []).append(
+                    (lenient, "a parser object that served earlier lines gives %r, a fresh one %r" % (
+                        G.outcome_key(out2), G.outcome_key(out))))
         for sig, hits in found.items():
             # same class in both modes: one signature; otherwise the mode is part of the class
             mode = "" if len(hits) == 2 else ("|lenient-only" if hits[0][0] else "|strict-only")
